@@ -37,6 +37,49 @@ def guarded_check(solver, ms):
         timer.cancel()
 
 
+def forked_check(solver, ms):
+    """solver.check() in a forked child that is killed at the deadline: the only stop that works when z3 spins inside the
+    sequence solver (neither timeout, rlimit nor Z3_interrupt is honoured there).  No model is available afterwards; a killed
+    check is `unknown`.  Used for the feasibility / entailment questions asked while executing symbolically."""
+    import os
+    import select
+    import signal
+    import time as _t
+    r, w = os.pipe()
+    pid = os.fork()
+    if pid == 0:
+        try:
+            os.close(r)
+            res = solver.check()
+            os.write(w, b"s" if res == z3.sat else (b"u" if res == z3.unsat else b"?"))
+        except BaseException:      # noqa: BLE001
+            pass
+        finally:
+            os._exit(0)
+    os.close(w)
+    out = b""
+    deadline = _t.time() + ms / 1000.0 * 1.5 + 1.0
+    while True:
+        left = deadline - _t.time()
+        if left <= 0:
+            break
+        ready, _, _ = select.select([r], [], [], left)
+        if ready:
+            out = os.read(r, 1)
+            break
+    os.close(r)
+    if not out:
+        try:
+            os.kill(pid, signal.SIGKILL)
+        except OSError:
+            pass
+    try:
+        os.waitpid(pid, 0)
+    except OSError:
+        pass
+    return {b"s": z3.sat, b"u": z3.unsat}.get(out, z3.unknown)
+
+
 class _NullSolver:
     """stands in for the path solver while a throw-away evaluation runs: nothing is asserted, nothing is decided"""
     def add(self, *a):
@@ -141,7 +184,14 @@ class Contract:
         for vi, var in enumerate(self.variants):
             ok = True
             for nme, typ in var.items():
-                if nme.startswith("_") or nme not in bound or not isinstance(typ, str) or typ not in kinds:
+                if nme.startswith("_") or nme not in bound:
+                    continue
+                if isinstance(typ, dict):
+                    # object shape: the classes of the argument and of its object-valued fields must be the declared ones
+                    if not path.shape_matches(bound[nme], typ):
+                        ok = False
+                    continue
+                if not isinstance(typ, str) or typ not in kinds:
                     continue
                 if bound[nme].kind not in kinds[typ]:
                     ok = False
@@ -199,6 +249,29 @@ class Path:
         self.free_bools = set()     # fresh Bool constants that do not occur in the path condition yet
 
     # -- basic services -----------------------------------------------------
+    def class_name(self, v):
+        """qualified class name of a heap object, or None"""
+        if not isinstance(v, VRef):
+            return None
+        h = self.heap.get(v.rid)
+        if not isinstance(h, HObj):
+            return None
+        return h.cls if isinstance(h.cls, str) else getattr(h.cls, "qualname", None)
+
+    def shape_matches(self, v, typ):
+        """does the value have the declared object shape (class names of the object and of its object-valued fields)?"""
+        if not isinstance(typ, dict):
+            return True
+        if typ.get("cls") and self.class_name(v) != typ["cls"]:
+            return False
+        h = self.heap.get(v.rid) if isinstance(v, VRef) else None
+        for f, ft in typ.get("fields", {}).items():
+            if isinstance(ft, dict) and ft.get("cls"):
+                fv = h.fields.get(f) if isinstance(h, HObj) else None
+                if fv is None or not self.shape_matches(fv, ft):
+                    return False
+        return True
+
     def fresh(self, name, sort):
         n = self.counter.get(name, 0)
         self.counter[name] = n + 1
@@ -225,7 +298,7 @@ class Path:
     def feasible(self, c):
         self.solver.push()
         self.solver.add(c)
-        r = guarded_check(self.solver, 2000) if not isinstance(self.solver, _NullSolver) else z3.unknown
+        r = forked_check(self.solver, 2000) if not isinstance(self.solver, _NullSolver) else z3.unknown
         self.solver.pop()
         return r != z3.unsat
 
@@ -236,7 +309,7 @@ class Path:
             return True
         self.solver.push()
         self.solver.add(z3.Not(c))
-        r = guarded_check(self.solver, 2000) if not isinstance(self.solver, _NullSolver) else z3.unknown
+        r = forked_check(self.solver, 2000) if not isinstance(self.solver, _NullSolver) else z3.unknown
         self.solver.pop()
         return r == z3.unsat
 
